@@ -105,6 +105,10 @@ func ApplyEdits(root *json.Object, p *presence.Presence, edits []Edit) {
 			if o := root.GetObject("o"); o != nil {
 				o.SetNewObject(e.Key).SetInteger("x", e.V)
 			}
+		case "odate":
+			if o := root.GetObject("o"); o != nil {
+				o.SetDate(e.Key, gotime.Date(2024, 1, 1+e.V%28, e.V%24, 4, 5, 123456789, gotime.FixedZone("X", (1+e.V%11)*3600)))
+			}
 		case "otext":
 			if o := root.GetObject("o"); o != nil {
 				o.SetNewText(e.Key).Edit(0, 0, e.S)
